@@ -487,7 +487,17 @@ class Workspace(AbstractContextManager):
             )
 
         if created_entity is not None and save_on_creation and self.h5file is not None:
-            self.save_entity(created_entity, compression=compression)
+            try:
+                self.save_entity(created_entity, compression=compression)
+            except Exception:
+                # An entity that could not be stored (e.g. read-only file) must not
+                # stay behind in the tree, where later changes would silently be skipped.
+                siblings = getattr(
+                    getattr(created_entity, "parent", None), "_children", None
+                )
+                if siblings is not None and created_entity in siblings:
+                    siblings.remove(created_entity)
+                raise
 
         return created_entity
 
